@@ -110,7 +110,7 @@ def input_potentials(attrs, sizes, cliques, vclass, rngseed):
     return out, None
 
 
-def model_potentials(model, attrs, sizes, in_pots):
+def model_potentials(model, attrs, sizes, in_pots, permute=False):
     """assign every input potential to the first model clique that contains it (own expansion, by name)"""
     from mbi import Factor, CliqueVector, Domain
     arrs = {}
@@ -122,6 +122,9 @@ def model_potentials(model, attrs, sizes, in_pots):
         sel = tuple(idx[tgt.index(x)] for x in c)
         arrs[tgt] = arrs[tgt] + a[sel]
     dom = Domain(attrs, sizes)
+    if permute:
+        # same parameters, but each factor lists its attributes in reversed order (factors are addressed by name)
+        return CliqueVector({cl: Factor(dom.project(tuple(reversed(cl))), np.ascontiguousarray(np.transpose(arrs[cl]))) for cl in model.cliques})
     return CliqueVector({cl: Factor(dom.project(cl), arrs[cl]) for cl in model.cliques})
 
 
@@ -140,10 +143,10 @@ def compare(acc, case, key, model, marg, joint, attrs, total, what):
     """every clique marginal vs the explicit joint"""
     for cl in model.cliques:
         got = marg[cl]
-        if tuple(got.domain.attrs) != tuple(cl):
+        if set(got.domain.attrs) != set(cl) or len(got.domain.attrs) != len(cl):
             acc.violate(case, dict(key, kind='wrong-axes'), '%s: marginal for %r has axes %r' % (what, cl, got.domain.attrs))
             return False
-        ref = O.marginal(joint, attrs, cl)
+        ref = O.marginal(joint, attrs, tuple(got.domain.attrs))   # by name, in the order the answer declares
         if not O.close(got.values, ref, 1e-7, 1e-9 * total):
             acc.violate(case, dict(key, kind='marginal-mismatch'),
                         '%s: clique %r marginal differs from brute force: max abs diff %.3g (total %g); finite=%s\n got %s\n ref %s' % (
@@ -230,7 +233,7 @@ def explore_structure(acc, k, mask, pres, sizes_name, vclasses, seed, only=None,
                 continue
             pots, joint, total = refs[vc]
             model.total = total
-            mpots = model_potentials(model, attrs, sizes, pots)
+            mpots = model_potentials(model, attrs, sizes, pots, permute=(naming == 'scrambled'))
             for sc in scheds:
                 if only is not None and only.get('schedule') != (None if sc is None else [[list(a), list(b)] for a, b in sc]):
                     continue
